@@ -297,6 +297,15 @@ def strat_rigid(tier):
 
 
 # ---------------------------------------------------------------- rotate_dihedral
+def _dihedral(c, a1, a2, a3, a4):
+    """the harness' own dihedral (atan2 form: well defined for flat cis / trans arrangements as well).  Sign convention calibrated on
+    the documented example of CartesianGeometry.dihedral: dendrobine.dihedral(0, 1, 2, 3) == -0.3286236550063439"""
+    b0, b1, b2 = c[a2] - c[a1], c[a3] - c[a2], c[a4] - c[a3]
+    n1, n2 = np.cross(b0, b1), np.cross(b1, b2)
+    m1 = np.cross(n1, b1 / np.linalg.norm(b1))
+    return -float(math.atan2(np.dot(m1, n2), np.dot(n1, n2)))
+
+
 def _candidates(m):
     """(a1,a2,a3,a4) for every bridge bond a2-a3 with suitable neighbours"""
     import networkx as nx
@@ -340,6 +349,11 @@ def check_dihedral(r) -> list[Fail]:
         m = ml.Molecule.load_mol2(getattr(ml.files, r["file"]))
     else:
         m = chem.build_molecule(r["mol"], ml.Molecule)
+        if r.get("flat"):
+            # an exactly planar geometry (2-D drawing, idealised build): every dihedral is exactly 0 or pi
+            c_ = np.array(m.coords, dtype=float)
+            c_[:, 2] = 0.0
+            m.coords = c_
     cands, g = _candidates(m)
     if not cands:
         return []
@@ -356,11 +370,17 @@ def check_dihedral(r) -> list[Fail]:
         g2.remove_edge(a2, a3)
         side3 = sorted(nx.node_connected_component(g2, a3))
         other = [i for i in range(mm.n_atoms) if i not in side3]
-        d0 = mm.dihedral(a1, a2, a3, a4)
+        d0 = _dihedral(np.asarray(mm.coords, dtype=float), a1, a2, a3, a4)
+        d0_impl = mm.dihedral(a1, a2, a3, a4)
+        if abs((d0_impl - d0 + math.pi) % (2 * math.pi) - math.pi) > 1e-6 and abs(abs(d0) - math.pi) > 1e-6:
+            # (only the magnitude convention +pi / -pi is left open at exactly trans)
+            fails.append(Fail("dihedral:reported-angle-differs-from-the-geometry", f"atoms {(a1, a2, a3, a4)}: dihedral() says {d0_impl:.6f}, the coordinates give {d0:.6f}"))
+        elif abs(abs(d0) - math.pi) <= 1e-6 and abs(abs(d0_impl) - math.pi) > 1e-6:
+            fails.append(Fail("dihedral:reported-angle-differs-from-the-geometry", f"atoms {(a1, a2, a3, a4)}: dihedral() says {d0_impl:.6f} for an exactly trans arrangement"))
         # the four atoms are named as Atom objects or, every third candidate, as integer indices (AtomLike)
         quad = (mm.atoms[a1], mm.atoms[a2], mm.atoms[a3], mm.atoms[a4]) if (a1 + a4) % 3 else (a1, a2, a3, a4)
         mm.rotate_dihedral(quad, target)
-        d1 = mm.dihedral(a1, a2, a3, a4)
+        d1 = _dihedral(np.asarray(mm.coords, dtype=float), a1, a2, a3, a4)
         keys.append((r.get("file", "gen"), a1, a2, a3, a4, round(target, 6)))
         err = abs((d1 - target + math.pi) % (2 * math.pi) - math.pi)
         if not err < 1e-6:
@@ -389,7 +409,7 @@ def check_dihedral(r) -> list[Fail]:
 
 def strat_dihedral(tier):
     molr = chem.molecule_recipe(max_atoms=14, max_bonds=14, attribs=False, full=False, special_coords=False, min_atoms=4).map(_spread)
-    return st.fixed_dictionaries({"mol": molr, "pick": st.integers(0, 1000), "target": st.one_of(st.floats(-math.pi, math.pi), st.sampled_from([0.0, 0.3, math.pi, -math.pi / 2, 3.0, -3.1]))})
+    return st.fixed_dictionaries({"mol": molr, "pick": st.integers(0, 1000), "target": st.one_of(st.floats(-math.pi, math.pi), st.sampled_from([0.0, 0.3, math.pi, -math.pi / 2, 3.0, -3.1])), "flat": st.sampled_from([False, False, True])})
 
 
 def enum_dihedral(tier, shard, nshards):
